@@ -536,7 +536,14 @@ def rule_no_stale_cache_(ctx: Ctx, rep: Report) -> None:
     rule_no_stale_cache(ctx, rep, "C20.no_stale_cache", ('btclib.',), 7)
 
 
+def rule_memo_key_complete_(ctx: Ctx, rep: Report) -> None:
+    """C20.memo_key_complete: a value computed once and kept is reset inside every loop whose variable it reads (see sigcommon.rule_memo_key_complete)."""
+    from rules.sigcommon import rule_memo_key_complete
+    rule_memo_key_complete(ctx, rep, "C20.memo_key_complete", ('btclib.',))
+
+
 RULES = [
+    ("C20.memo_key_complete", rule_memo_key_complete_),
     ("C20.no_stale_cache", rule_no_stale_cache_),
 
     ("C20.signer_arm", rule_signer_arm),
